@@ -460,10 +460,35 @@ func runC05(c *Ctx) {
 				}
 			}
 		}
-		fw := count(cs.Body, AndEdges(edgeNotCtx, extra), isOnErr)
+		// the same as value-level assumptions (they also decide `runFailed := !outOfAmmo && !IsCtxError(..); if runFailed`)
+		assume := func(ctxErr bool) []Assumption {
+			as := []Assumption{{isCtxErrCall, ctxErr}}
+			if name == "runRes" {
+				if g := outOfAmmoGlobal(c); g != nil {
+					isCmp := func(op token.Token) func(ssa.Value) bool {
+						return func(v ssa.Value) bool {
+							b, ok := v.(*ssa.BinOp)
+							return ok && b.Op == op && (IsGlobalLoad(g)(b.X) || IsGlobalLoad(g)(b.Y))
+						}
+					}
+					as = append(as, Assumption{isCmp(token.EQL), false}, Assumption{isCmp(token.NEQ), true})
+				}
+			}
+			return as
+		}
+		countA := func(as []Assumption) Interval {
+			return PathQuery{Fn: awaitRun, StartBlock: cs.Body, StopBlock: loopHead, Assume: as, Weight: func(in ssa.Instruction) (int, int) {
+				if isOnErr(in) {
+					return 1, 1
+				}
+				return 0, 0
+			}}.Count()
+		}
+		_, _, _ = edgeNotCtx, edgeCtx, extra
+		fw := countA(assume(false))
 		c.Check(fw.Is(1, 1), "O5.4", key+":non-context-error-forwarded", cs.State.Pos,
 			fmt.Sprintf("onErrAwaited() calls on the path where the error is not a context error = %v (want [1,1])", fw))
-		nf := count(cs.Body, AndEdges(edgeCtx, extra), isOnErr)
+		nf := countA(assume(true))
 		c.Check(nf.Is(0, 0), "O5.4", key+":context-error-not-forwarded", cs.State.Pos, fmt.Sprintf("onErrAwaited() calls on the context-error path = %v (want [0,0])", nf))
 		eachCaseInstr(func(in ssa.Instruction) {
 			if isOnErr(in) {
